@@ -1,83 +1,92 @@
 (* C15 - A failing call leaves no trace: later calls behave as if it never happened.
    Statements only.  The model (models/WalkerFail.v over core/DagWalk.v) keeps exactly what
-   pysmt keeps on a long-lived walker: `self.stack` and `self.memoization` survive an
-   exception, the one-shot table is cleared only on success.
-
-   The full-strength statement ([failure_transparent_stmt]) is FALSE of the faithful model:
-   C15_failure_transparent_refuted (persistent walkers: a later, unrelated call dies with
-   KeyError) and C15_failure_transparent_refuted_oneshot (substituter: a later call returns a
-   stale VALUE).  The provable part carries the exact side condition: the failure, if any,
-   happens at the root of the traversal (nothing is left on the stack). *)
+   pysmt keeps on a long-lived walker: `self.stack` and `self.memoization` are instance
+   attributes; iter_walk empties the stack when the loop raises, walk clears a one-shot table
+   in its `finally` (/repo c824285, 4d718bf).  [call_ok] is only "the loop gets enough fuel"
+   (Python's loop has no fuel).  Answers are compared by [ans_equiv]: the same value, or both
+   raise from a callback; for the one-shot walker they are equal outright. *)
 From Coq Require Import List Arith.
 From PySMT.core Require Import DagWalk.
 From PySMT.models Require Import WalkerFail.
 From PySMT.proofs Require Import DagWalk_proofs WalkerFail_proofs.
 Import ListNotations.
 
-(* full statement, for reference:
-   forall walker (A, P, children, f, early, oneshot), clean empty state w, call c, later calls:
-     do_call w c = (w', Err e) -> answers w' later = answers w later *)
-Theorem C15_failure_transparent_refuted : ~ failure_transparent_stmt.
-Proof. exact failure_transparent_refuted. Qed.
-
-Theorem C15_failure_transparent_refuted_oneshot :
-  exists later, answers nat nat Witness.ch Witness.h true true 100 Witness.v1 later
-                <> answers nat nat Witness.ch Witness.h true true 100 (init nat) later
-                /\ (forall a, In a (answers nat nat Witness.ch Witness.h true true 100 Witness.v1 later) ->
-                    exists v, a = Ok v).
-Proof. exact failure_transparent_refuted_oneshot. Qed.
-
-(* what exactly a failing call leaves (walk_err): memo still correct and grown, the failing
-   node x not memoised, and either x is the root and the stack is empty, or (True, root) and
-   the rest of the traversal are still on the stack *)
+(* the state a failing walk leaves (walk_err): the callback raised at a reachable node x whose
+   fold fails; the stack is empty and the memo correct; a persistent memo has only grown (it
+   keeps the children of x, not x), a one-shot memo is empty *)
 Theorem C15_walk_err : forall (A : Type) (children : nat -> list nat),
   (forall n c, In c (children n) -> c < n) ->
   forall (f : nat -> list A -> option A) early oneshot w root fuel,
   clean A children f w -> enough_fuel children root <= fuel -> F A children f root = None ->
   exists s x, walk A children f early oneshot fuel w root = (s, Err (ECallback x)) /\
+    (stk s = [] /\ Mok A children f (mm s)) /\
+    reach children root x /\ F A children f x = None /\ inm A (mm s) x = false /\
+    (oneshot = false -> sub A (mm w) (mm s) /\ forall c, In c (children x) -> inm A (mm s) c = true) /\
+    (oneshot = true -> mm s = mempty A).
+Proof. exact walk_err. Qed.
+
+(* what the loop alone leaves behind (the residue iter_walk has to drop): kept as the reason
+   for the `except: del self.stack[:]` *)
+Theorem C15_loop_residue : forall (A : Type) (children : nat -> list nat),
+  (forall n c, In c (children n) -> c < n) ->
+  forall (f : nat -> list A -> option A) w root fuel,
+  clean A children f w -> enough_fuel children root <= fuel -> F A children f root = None ->
+  exists s x, run A children f fuel (with_stk A w ((false, root) :: stk w)) = Failed (ECallback x) s /\
     Mok A children f (mm s) /\ sub A (mm w) (mm s) /\
     reach children root x /\ F A children f x = None /\ inm A (mm s) x = false /\
     (forall c, In c (children x) -> inm A (mm s) c = true) /\
     (forall b y, In (b, y) (stk s) -> reach children root y) /\
     ((x = root /\ stk s = []) \/ (x <> root /\ In (true, root) (stk s))).
-Proof. exact walk_err. Qed.
+Proof. exact process_stack_err. Qed.
 
-(* provable part, persistent walkers: if every call of the history can only fail at its root
-   (all proper sub-terms are fine), the answers after a failing call are those without it ... *)
-Theorem C15_failure_transparent_partial : forall (A : Type) (children : nat -> list nat),
+(* failure_transparent, persistent walkers (env.simplifier, env.stc, the oracles): after a
+   call that raised at ANY node the stack is empty, the memo is correct and has only grown, and
+   every later history (which may contain further failing calls) answers as it would have
+   without the failing call *)
+Theorem C15_failure_transparent : forall (A : Type) (children : nat -> list nat),
   (forall n c, In c (children n) -> c < n) ->
-  forall (f : nat -> list A -> option A) early fuel w c later,
-  clean A children f w -> call_ok A children f fuel c -> Forall (call_ok A children f fuel) later ->
-  Forall2 ans_equiv
-    (answers A unit children (fun _ => f) early false fuel
-             (fst (do_call A unit children (fun _ => f) early false fuel w c)) later)
-    (answers A unit children (fun _ => f) early false fuel w later).
-Proof. exact failure_transparent_partial. Qed.
+  forall (f : nat -> list A -> option A) early fuel w c w' e later,
+  clean A children f w -> call_ok children fuel c -> Forall (call_ok children fuel) later ->
+  do_call A unit children (fun _ => f) early false fuel w c = (w', Err e) ->
+  stk w' = [] /\ Mok A children f (mm w') /\ sub A (mm w) (mm w') /\
+  Forall2 ans_equiv (answers A unit children (fun _ => f) early false fuel w' later)
+                    (answers A unit children (fun _ => f) early false fuel w later).
+Proof. exact failure_transparent. Qed.
 
-(* ... and those of a fresh environment *)
+(* ... and as a fresh environment would *)
 Theorem C15_later_as_fresh : forall (A : Type) (children : nat -> list nat),
   (forall n c, In c (children n) -> c < n) ->
   forall (f : nat -> list A -> option A) early fuel w c later,
-  clean A children f w -> call_ok A children f fuel c -> Forall (call_ok A children f fuel) later ->
+  clean A children f w -> call_ok children fuel c -> Forall (call_ok children fuel) later ->
   Forall2 ans_equiv
     (answers A unit children (fun _ => f) early false fuel
              (fst (do_call A unit children (fun _ => f) early false fuel w c)) later)
     (map (fresh_answer A unit children (fun _ => f) early false fuel) later).
 Proof. exact later_as_fresh. Qed.
 
-(* one-shot walkers: stack and table are empty between calls as long as a call can only
-   fail at a leaf root *)
+(* failure_transparent, one-shot walkers (env.substituter; the callback depends on the keyword
+   arguments p of each call): after a call that raised at ANY node, stack and table are empty
+   again and every later history gives exactly the answers it gives without the failing call *)
+Theorem C15_failure_transparent_oneshot : forall (A P : Type) (children : nat -> list nat),
+  (forall n c, In c (children n) -> c < n) ->
+  forall (f : P -> nat -> list A -> option A) early fuel w c w' e later,
+  pristine A w -> enough_fuel children (snd c) <= fuel ->
+  do_call A P children f early true fuel w c = (w', Err e) ->
+  pristine A w' /\
+  answers A P children f early true fuel w' later = answers A P children f early true fuel w later.
+Proof. exact failure_transparent_oneshot. Qed.
+
+(* every call of a one-shot walker, raising or not, leaves stack and table empty *)
 Theorem C15_oneshot_pristine : forall (A P : Type) (children : nat -> list nat),
   (forall n c, In c (children n) -> c < n) ->
   forall (f : P -> nat -> list A -> option A) early fuel w c,
   pristine A w -> enough_fuel children (snd c) <= fuel ->
-  (F A children (f (fst c)) (snd c) = None -> children (snd c) = []) ->
   pristine A (fst (do_call A P children f early true fuel w c)).
 Proof. exact oneshot_pristine. Qed.
 
-Print Assumptions C15_failure_transparent_refuted.
-Print Assumptions C15_failure_transparent_refuted_oneshot.
 Print Assumptions C15_walk_err.
-Print Assumptions C15_failure_transparent_partial.
+Print Assumptions C15_loop_residue.
+Print Assumptions C15_failure_transparent.
 Print Assumptions C15_later_as_fresh.
+Print Assumptions C15_failure_transparent_oneshot.
 Print Assumptions C15_oneshot_pristine.
